@@ -24,6 +24,7 @@ pub fn scenario_regime(tier: &str, poor: bool) -> (Life, Bounds) {
         tick_faults: false,
         bystander: false,
         extensions: true,
+        backlog: false,
     };
     let b = if th {
         Bounds { max_depth: 400, max_faults: 1, wall_cap_s: 700.0, ..Default::default() }
@@ -54,6 +55,7 @@ pub fn scenario_big(tier: &str) -> (Life, Bounds) {
         tick_faults: false,
         bystander: false,
         extensions: false,
+        backlog: false,
     };
     let b = Bounds { max_depth: 400, max_faults: 1, wall_cap_s: if th { 400.0 } else { 25.0 }, ..Default::default() };
     (Life { cfg }, b)
@@ -61,6 +63,37 @@ pub fn scenario_big(tier: &str) -> (Life, Bounds) {
 
 pub fn scenario(tier: &str) -> (Life, Bounds) {
     scenario_regime(tier, false)
+}
+
+/// One partition per message and per early-termination processing call (`backlog_policy`): the
+/// fault time-out of the `long-faulty` base spans two partitions, so one processing call leaves a
+/// backlog of unprocessed early terminations for a later cron callback. Between the two the miner
+/// index is non-empty at message boundaries: withdrawals must be refused (C14), the pledge of the
+/// sectors still awaiting processing stays recorded (C03), the backlog must be worked off (C05)
+/// and every terminated sector is charged its fee when processed (C15).
+pub fn scenario_backlog(tier: &str, property: &'static str, oracles: Oracles) -> (Life, Bounds) {
+    let th = tier_is_thorough(tier);
+    let cfg = LifeCfg {
+        name: match property { "C03" => "c03-et-backlog", "C05" => "c05-et-backlog", "C14" => "c14-et-backlog", _ => "c15-et-backlog" },
+        periods: if th { 3 } else { 2 },
+        devs: if th { 2 } else { 1 },
+        bases: vec!["long-faulty"],
+        oracles,
+        sector_sets: sets_small(),
+        known_open: mcx::evidence::known_open(property),
+        property,
+        poor: None,
+        money_devs: true,
+        precommits: false,
+        horizon: None,
+        big: false,
+        tick_faults: false,
+        bystander: false,
+        extensions: false,
+        backlog: true,
+    };
+    let b = Bounds { max_depth: 400, max_faults: 0, wall_cap_s: if th { 400.0 } else { 20.0 }, ..Default::default() };
+    (Life { cfg }, b)
 }
 
 /// The termination-fee function over a boundary grid (pledge x sector age x fault fee): the
@@ -158,6 +191,8 @@ pub fn run(tier: &str) -> ! {
         run.add(mcx::explore(&scn, &b));
     }
     let (scn, b) = scenario_big(tier);
+    run.add(mcx::explore(&scn, &b));
+    let (scn, b) = scenario_backlog(tier, "C15", Oracles { c15: true, ..Default::default() });
     run.add(mcx::explore(&scn, &b));
     fee_grid(&mut run);
     run.finish()
